@@ -44,6 +44,14 @@ class VerifyKeyModel:
             def verify(it_, args, kw, n):
                 msg = args[0] if args else kw.get('smessage')
                 sig = args[1] if len(args) > 1 else kw.get('signature')
+                if sig is None or (isinstance(sig, K) and sig.v is None):
+                    # the combined form signature || message (PyNaCl: the first 64 bytes are the signature)
+                    whole = Rope.of(it_, msg)
+                    if whole is None:
+                        raise Fail('VerifyKey.verify of a combined message of unknown layout')
+                    if whole.n < 64:
+                        raise RaiseEx('BadSignatureError', 'signed message shorter than a signature')
+                    sig, msg = whole.cut(it_, 0, 64).simplify(), whole.cut(it_, 64, whole.n).simplify()
                 key = (repr(it_.vkey(self.pk)), repr(it_.vkey(msg)), repr(it_.vkey(sig)))
                 self.rule['asked'].append(key)
                 ln = it_.models.bytes_len(it_, sig) if not (isinstance(sig, K) and sig.v is None) else None
@@ -124,6 +132,12 @@ def scenario(prog, n, seq, weights=None):
                 state['valid'].add((repr(it.vkey(pk)), repr(it.vkey(other)), repr(it.vkey(sg))))
             elif kind == 'unknown':
                 state['valid'].add((repr(it.vkey(pk)), repr(it.vkey(msg)), repr(it.vkey(sg))))
+            elif kind == 'combined':
+                # what a validator really signed for another block, as nacl's combined form `signature || message`, in the place of the signature
+                other = Rope([(K(SIGN_MAGIC), 4), (F, 32), (R, 32)])
+                state['valid'].add((repr(it.vkey(pk)), repr(it.vkey(other.simplify())), repr(it.vkey(sg))))
+                state['valid'].add((repr(it.vkey(pk)), repr(it.vkey(other)), repr(it.vkey(sg))))
+                sg = Rope([(sg, 64)] + other.parts)
             d = DictV({'node_id_short': Term('hex', node_id(it, pk)), 'signature': sg})
             d.keyobj = {k: K(k) for k in d.d}
             sigs.append(d)
@@ -223,6 +237,17 @@ def check(run):
                     run.evaluations += 1
                     run.check(kind == 'raise', 'D3', 'check_block_signatures[malformed]' if kind != 'raise' else f'{tag}|{desc[:24]}',
                               f'{tag}: ' + ('rejected' if kind == 'raise' else f'accepted although one entry is a 63-byte string, not a signature (path {desc})'), w)
+
+    # an entry whose `signature` is the combined form signature || message of what the validator signed for ANOTHER block: only the 64-byte
+    # detached signature over THIS block's payload counts - anything longer is no signature of it
+    for n in (1, 2, 3):
+        for p_ in range(n):
+            for seq in ([('valid', i) if i != p_ else ('combined', i) for i in range(n)], [('combined', p_)] + [('valid', i) for i in range(n) if i != p_]):
+                tag = f'n={n},sigs=[{",".join(k + str(i) for k, i in seq)}]'
+                for (kind, res, it2), desc in scenario(prog, n, seq):
+                    run.evaluations += 1
+                    run.check(kind == 'raise', 'D3', 'check_block_signatures[combined form in place of a signature]' if kind != 'raise' else f'{tag}|{desc[:24]}',
+                              f'{tag}: ' + ('rejected' if kind == 'raise' else f'accepted although one entry carries `signature || payload of another block` (132 bytes) where the signature belongs (path {desc})'), w)
 
     # ---- scenarios
     maxlen = 4 if thorough else 3
